@@ -1,5 +1,5 @@
 """C01 — sender/receiver round trip: wiring symmetry (DESIGN §5 C01: R01.1 … R01.4)."""
-from ..prov import get_an, pp, strip_sites
+from ..prov import get_an, pp, strip_sites, fold_const
 from .common import where, ret_classes, is_ok_agg
 from .aeadctx import aead_sites, SiteInfo
 from .hpketerms import ppn
@@ -189,6 +189,8 @@ def check_mode_siblings(rep, facts, rule='R01.5'):
                     vals = []
                     for rt, site in rows:
                         x = strip_sites(rt)
+                        if name == 'mode_id':
+                            x = fold_const(x, 'u8')
                         if x[0] == 'load' and x[1] == ('param', 1):
                             x = ('load', ('param', 1), tuple(e for e in x[2] if not (e[0] == 'f' and e[1].isdigit())))
                         vals.append(x)
